@@ -439,6 +439,29 @@ fn momentum_run(scn: &W4Scn, mirrored: bool, stats: &mut RunStats) -> Result<Vec
     let mut last_price: Option<f64> = None;
     let mut momentum = 0.0f64;
     for step in 0..cfg.path.len() {
+        // a trading halt in the middle of the run, during which the harness rests one crossing quote (the book stays
+        // crossed after the resume: nothing un-crosses it); the agents' rule does not depend on the switch or on a crossed
+        // book - market orders are still *submitted* (and rejected / executed by the book as it sees fit)
+        for (from, to) in &cfg.halts {
+            if *from == step as u64 {
+                w.set_trading(false);
+                if let Some((ib, ik)) = cur {
+                    let os = w.orders(a);
+                    let (pb, pk) = (os[ib].price, os[ik].price);
+                    let t = tick as u32;
+                    if !mirrored {
+                        let _ = w.place(a, true, 1, QUOTER, Some(pk + t));
+                    } else {
+                        let _ = w.place(a, false, 1, QUOTER, Some(pb - t));
+                    }
+                }
+                stats.fault("trading_halt");
+            }
+            if *to == step as u64 {
+                w.set_trading(true);
+                stats.fault("trading_resume");
+            }
+        }
         let mid = w.mid(a);
         // the documented recurrence, recomputed by the harness from the mids it observed
         let (m, p) = match last_price {
